@@ -57,11 +57,13 @@ Definition ret_pc (m : mpc) : bool := match m with MReturning | MReturned => tru
 Definition may_be_open (m : mpc) : bool :=
   match m with MProbe | MSpawn | MOnConnect | MRead | MEofSleep | MCloseQuit | MCloseConn => true | _ => false end.
 Definition absent_pc (m : mpc) : bool := match m with MProbe | MSpawn => true | _ => false end.
-Definition started (c : crec) : Z :=
-  match c_w c with WNotStarted | WSelect | WExitStore | WCloseConn | WDefer => 1 | _ => 0 end.
+Definition live_pc (p : wpc) : Z :=
+  match p with WNotStarted | WSelect | WWriting | WExitStore | WCloseConn | WDefer => 1 | _ => 0 end.
+Definition started (c : crec) : Z := live_pc (c_w c) + live_pc (c_x c).
 Fixpoint count_started (l : list crec) : Z := match l with [] => 0 | c :: r => started c + count_started r end.
 Definition main_c (m : mpc) : Z := match m with MStart | MReturned => 0 | _ => 1 end.
-Definition past_exit (c : crec) : bool := match c_w c with WCloseConn | WDefer | WDone => true | _ => false end.
+Definition past_pc (p : wpc) : bool := match p with WCloseConn | WDefer | WDone => true | _ => false end.
+Definition past_exit (c : crec) : bool := past_pc (c_w c) || past_pc (c_x c).
 Definition dial_pc (m : mpc) : bool := match m with MDial | MWaitNoConn => true | _ => false end.
 Definition has_retry (h : list lab) : bool := existsb (fun l => match l with LbSleptRetry => true | _ => false end) h.
 Definition has_cancel (h : list lab) : bool := existsb (fun l => match l with LbCancel => true | _ => false end) h.
@@ -78,6 +80,7 @@ Record Inv (s : st) (h : list lab) : Prop := mkInv {
   i_open_cur : may_be_open (s_m s) = false -> Forall (fun c => c_open c = false) (s_cs s);
   i_wg : s_wg s = main_c (s_m s) + count_started (s_cs s);
   i_absent : (s_m s = MProbe \/ s_m s = MSpawn) -> c_w (cur s) = WAbsent;
+  i_absent_x : (s_m s = MProbe \/ s_m s = MSpawn) -> c_x (cur s) = WAbsent;
   i_exit_started : Forall (fun c => c_exit c = true -> past_exit c = true) (s_cs s);
   i_retry_dial : dial_pc (s_m s) = true -> s_cs s <> [] -> has_retry h = true;
   i_retry_two : (2 <= length (s_cs s))%nat -> has_retry h = true;
@@ -86,7 +89,11 @@ Record Inv (s : st) (h : list lab) : Prop := mkInv {
   i_start : s_m s = MStart -> s_cs s = [];
   i_wexit : Forall (fun c => c_w c = WExitStore -> s_ctx s = true) (s_cs s);
   i_abs_old : Forall (fun c => c_w c <> WAbsent) (tl (s_cs s));
-  i_abs_cur : absent_pc (s_m s) = false -> Forall (fun c => c_w c <> WAbsent) (s_cs s)
+  i_abs_cur : absent_pc (s_m s) = false -> Forall (fun c => c_w c <> WAbsent) (s_cs s);
+  i_xexit : Forall (fun c => c_x c = WExitStore -> s_ctx s = true) (s_cs s);
+  i_xabs_old : Forall (fun c => c_x c <> WAbsent) (tl (s_cs s));
+  i_xabs_cur : absent_pc (s_m s) = false -> Forall (fun c => c_x c <> WAbsent) (s_cs s);
+  i_xnowrite : Forall (fun c => c_x c <> WWriting) (s_cs s)
 }.
 
 Lemma inv_init : Inv init [].
@@ -169,7 +176,7 @@ Ltac solve_forall :=
 Lemma inv_main : forall s h e s' l, Inv s h -> main_step s e = Some (s', l) -> Inv s' (h ++ [l]).
 Proof.
   intros [m cs wg ctx] h e s' l I H.
-  destruct I as [Ialt Ictx Iec Idt Ibef Ilast Ictr Ioo Ioc Iwg Iabs Ies Ird Ir2 Irr Icn Ist Iwe Iao Iac].
+  destruct I as [Ialt Ictx Iec Idt Ibef Ilast Ictr Ioo Ioc Iwg Iabs Iabsx Ies Ird Ir2 Irr Icn Ist Iwe Iao Iac Ixe Ixao Ixac Ixnw].
   cbn [s_m s_cs s_wg s_ctx] in *.
   unfold main_step in H; cbn [s_m s_cs s_wg s_ctx] in H.
   destruct m; destruct e; try discriminate H;
@@ -207,6 +214,19 @@ Proof.
             cbn [upd_cur s_cs tl] in *; constructor; [cbn; discriminate|exact Iao]).
   all: try (intros _; specialize (Iac eq_refl); destruct cs as [|c0 cs0]; cbn [upd_cur s_cs]; [constructor|];
             inversion Iac; subst; constructor; [cbn; assumption|assumption]).
+  (* the watcher's mirror images *)
+  all: try (apply Ixac; reflexivity).
+  all: try (assert (Hne : cs <> []) by (apply Icn; auto);
+            specialize (Iabs (or_intror eq_refl)); specialize (Iabsx (or_intror eq_refl)); destruct cs as [|c0 cs0]; [congruence|];
+            cbn [upd_cur s_cs hd cur count_started] in *;
+            unfold started; cbn [set_w set_x c_w c_x]; rewrite Iabs, Iabsx; cbn [live_pc]; lia).
+  all: try (specialize (Iabs (or_intror eq_refl)); specialize (Iabsx (or_intror eq_refl)); destruct cs as [|c0 cs0]; cbn in *; [constructor|];
+            inversion Ies; subst; constructor;
+            [cbn; intro He; match goal with H : _ -> past_exit _ = true |- _ => specialize (H He); unfold past_exit in H; rewrite Iabs, Iabsx in H; discriminate end|assumption]).
+  all: try (intros _; assert (Hne : cs <> []) by (apply Icn; auto); destruct cs as [|c0 cs0]; [congruence|];
+            cbn [upd_cur s_cs tl] in *; constructor; [cbn; discriminate|exact Ixao]).
+  all: try (intros _; specialize (Ixac eq_refl); destruct cs as [|c0 cs0]; cbn [upd_cur s_cs]; [constructor|];
+            inversion Ixac; subst; constructor; [cbn; assumption|assumption]).
 Qed.
 
 Lemma Forall_upd_nth_at {A} (P : A -> Prop) : forall (l : list A) i f c,
@@ -223,7 +243,7 @@ Proof. intros [|x l] k; [destruct k; reflexivity|reflexivity]. Qed.
 Lemma inv_writer : forall s h i w s' l, Inv s h -> writer_step s i w = Some (s', l) -> Inv s' (h ++ [l]).
 Proof.
   intros [m cs wg ctx] h i w s' l I H.
-  destruct I as [Ialt Ictx Iec Idt Ibef Ilast Ictr Ioo Ioc Iwg Iabs Ies Ird Ir2 Irr Icn Ist Iwe Iao Iac].
+  destruct I as [Ialt Ictx Iec Idt Ibef Ilast Ictr Ioo Ioc Iwg Iabs Iabsx Ies Ird Ir2 Irr Icn Ist Iwe Iao Iac Ixe Ixao Ixac Ixnw].
   cbn [s_m s_cs s_wg s_ctx] in *.
   unfold writer_step in H; cbn [s_m s_cs s_wg s_ctx] in H.
   destruct (nth_error cs i) as [c|] eqn:Hn; [|discriminate].
@@ -233,6 +253,8 @@ Proof.
   assert (Pwe : c_w c = WExitStore -> ctx = true) by (intro Hx; exact (proj1 (Forall_forall _ _) Iwe c Hin Hx)).
   assert (Pabs : i = O -> (m = MProbe \/ m = MSpawn) -> c_w c = WAbsent).
   { intros -> Hm. specialize (Iabs Hm). unfold cur in Iabs. cbn in Iabs. destruct cs; cbn in *; [discriminate|]. inversion Hn; subst. exact Iabs. }
+  assert (Pxe : c_x c = WExitStore -> ctx = true) by (intro Hx; exact (proj1 (Forall_forall _ _) Ixe c Hin Hx)).
+  assert (Pxnw : c_x c <> WWriting) by (exact (proj1 (Forall_forall _ _) Ixnw c Hin)).
   unfold past_exit in Pes.
   destruct (c_w c) eqn:Ew; destruct w; try discriminate H;
     repeat match type of H with context [if ?b then _ else _] => destruct b eqn:? end;
@@ -259,12 +281,20 @@ Proof.
             |right; right; exact H2]; fail).
   all: try (destruct i; [exact Iao | apply Forall_upd_nth; [exact Iao | intros x Hx; cbn [set_w set_exit set_closed c_w]; discriminate]]; fail).
   all: try (intro Hm; apply Forall_upd_nth; [apply Iac; exact Hm | intros x Hx; cbn [set_w set_exit set_closed c_w]; discriminate]; fail).
+  (* the watcher's fields are not touched by a writer step *)
+  all: try (match goal with |- @eq Z _ _ => rewrite (count_upd_nth _ _ _ _ Hn); unfold started; cbn [set_w set_x set_exit set_closed c_w c_x]; rewrite ?Ew; cbn [live_pc];
+            generalize (main_c m) (count_started cs) (live_pc (c_x c)); clear; intros; lia end).
+  all: try (cbn [set_w set_exit set_closed c_x]; intro Hx; specialize (Pxe Hx); congruence).
+  all: try (cbn [set_w set_exit set_closed c_x]; exact Pxnw).
+  all: try (intro Hm; destruct i; [exfalso; specialize (Pabs eq_refl Hm); congruence | apply Iabsx; exact Hm]; fail).
+  all: try (intro Hm; apply Forall_upd_nth; [apply Ixac; exact Hm | intros x Hx; cbn [set_w set_exit set_closed c_x]; exact Hx]; fail).
+  all: try (destruct i; [exact Ixao | apply Forall_upd_nth; [exact Ixao | intros x Hx; cbn [set_w set_exit set_closed c_x]; exact Hx]]; fail).
 Qed.
 
 Lemma inv_cancel : forall s h s' l, Inv s h -> step s CCancel = Some (s', l) -> Inv s' (h ++ [l]).
 Proof.
   intros [m cs wg ctx] h s' l I H. cbn in H. destruct ctx; [discriminate|]. inversion H; subst; clear H.
-  destruct I as [Ialt Ictx Iec Idt Ibef Ilast Ictr Ioo Ioc Iwg Iabs Ies Ird Ir2 Irr Icn Ist Iwe Iao Iac].
+  destruct I as [Ialt Ictx Iec Idt Ibef Ilast Ictr Ioo Ioc Iwg Iabs Iabsx Ies Ird Ir2 Irr Icn Ist Iwe Iao Iac Ixe Ixao Ixac Ixnw].
   cbn [s_m s_cs s_wg s_ctx] in *.
   constructor; cbn [s_m s_cs s_wg s_ctx];
     rewrite ?cbs_app, ?has_cancel_app, ?has_retry_app, ?has_ct_app; cbn [cbs has_cancel has_retry has_ct existsb app orb];
@@ -272,13 +302,68 @@ Proof.
   - apply Forall_forall. intros; reflexivity.
   - apply before_app_other; [assumption|discriminate].
   - apply Forall_forall. intros; reflexivity.
+  - apply Forall_forall. intros; reflexivity.
 Qed.
+
+Lemma inv_watcher : forall s h i w s' l, Inv s h -> watcher_step s i w = Some (s', l) -> Inv s' (h ++ [l]).
+Proof.
+  intros [m cs wg ctx] h i w s' l I H.
+  destruct I as [Ialt Ictx Iec Idt Ibef Ilast Ictr Ioo Ioc Iwg Iabs Iabsx Ies Ird Ir2 Irr Icn Ist Iwe Iao Iac Ixe Ixao Ixac Ixnw].
+  cbn [s_m s_cs s_wg s_ctx] in *.
+  unfold watcher_step in H; cbn [s_m s_cs s_wg s_ctx] in H.
+  destruct (nth_error cs i) as [c|] eqn:Hn; [|discriminate].
+  assert (Hin : In c cs) by (eapply nth_error_In; eauto).
+  assert (Pec : c_exit c = true -> ctx = true) by (intro Hx; exact (proj1 (Forall_forall _ _) Iec c Hin Hx)).
+  assert (Pes : c_exit c = true -> past_exit c = true) by (intro Hx; exact (proj1 (Forall_forall _ _) Ies c Hin Hx)).
+  assert (Pxe : c_x c = WExitStore -> ctx = true) by (intro Hx; exact (proj1 (Forall_forall _ _) Ixe c Hin Hx)).
+  assert (Pabs : i = O -> (m = MProbe \/ m = MSpawn) -> c_x c = WAbsent).
+  { intros -> Hm. specialize (Iabsx Hm). unfold cur in Iabsx. cbn in Iabsx. destruct cs; cbn in *; [discriminate|]. inversion Hn; subst. exact Iabsx. }
+  assert (Pwe : c_w c = WExitStore -> ctx = true) by (intro Hx; exact (proj1 (Forall_forall _ _) Iwe c Hin Hx)).
+  unfold past_exit in Pes.
+  destruct (c_x c) eqn:Ew; destruct w; try discriminate H;
+    repeat match type of H with context [if ?b then _ else _] => destruct b eqn:? end;
+    try discriminate H; inversion H; subst; clear H.
+  all: constructor; cbn [s_m s_cs s_wg s_ctx];
+     rewrite ?cbs_app, ?has_cancel_app, ?has_retry_app, ?has_ct_app; cbn [cbs has_cancel has_retry has_ct existsb app orb];
+     rewrite ?app_nil_r, ?orb_false_r, ?length_upd_nth, ?tl_upd_nth; try assumption.
+  all: try (apply before_app_other; [assumption|discriminate]).
+  all: try (match goal with |- @eq Z _ _ => rewrite (count_upd_nth _ _ _ _ Hn); unfold started; cbn [set_x set_exit set_closed c_x]; rewrite ?Ew; generalize (main_c m) (count_started cs); clear; intros; lia end).
+  all: try (intro Hx; rewrite upd_nth_nil; auto; fail).
+  all: try (intros Hx Hy; apply Ird; [assumption|]; intro; subst; apply Hy; reflexivity).
+  all: try (eapply Forall_upd_nth_at; [eassumption|assumption|]; cbn [set_x set_exit set_closed c_x c_exit c_open c_quit past_exit];
+            first [reflexivity | assumption | (intro; discriminate) | (intros; auto; fail) | idtac]).
+  all: try reflexivity.
+  all: try (destruct i; [assumption | apply Forall_upd_nth; [assumption | intros x Hx; cbn [set_x set_exit set_closed c_open]; auto]]; fail).
+  all: try (intro Hm; apply Forall_upd_nth; [apply Ioc; exact Hm | intros x Hx; cbn [set_x set_exit set_closed c_open]; auto]; fail).
+  all: unfold cur in *; cbn [s_cs] in *; rewrite ?hd_upd_nth.
+  all: try (intro Hm; specialize (Idt Hm); destruct i;
+            [destruct cs as [|c0 cs0]; [discriminate|]; cbn in Hn; inversion Hn; subst; cbn [hd set_x set_exit set_closed c_exit] in *; auto | exact Idt]; fail).
+  all: try (intro Hm; destruct i; [exfalso; specialize (Pabs eq_refl Hm); congruence | apply Iabsx; exact Hm]; fail).
+  all: try (intro Hm; destruct (Irr Hm) as [H0|[H1|H2]];
+            [subst cs; destruct i; discriminate
+            |right; left; destruct i; [destruct cs as [|c0 cs0]; [discriminate|]; cbn in Hn; inversion Hn; subst; cbn [hd set_x set_exit set_closed c_exit] in *; auto | exact H1]
+            |right; right; exact H2]; fail).
+  all: try (destruct i; [exact Ixao | apply Forall_upd_nth; [exact Ixao | intros x Hx; cbn [set_x set_exit set_closed c_x]; discriminate]]; fail).
+  all: try (intro Hm; apply Forall_upd_nth; [apply Ixac; exact Hm | intros x Hx; cbn [set_x set_exit set_closed c_x]; discriminate]; fail).
+  (* the watcher's fields are not touched by a writer step *)
+  all: try (match goal with |- @eq Z _ _ => rewrite (count_upd_nth _ _ _ _ Hn); unfold started; cbn [set_x set_w set_exit set_closed c_x c_w]; rewrite ?Ew; cbn [live_pc];
+            generalize (main_c m) (count_started cs) (live_pc (c_w c)); clear; intros; lia end).
+  all: try (cbn [set_x set_exit set_closed c_w]; intro Hx; specialize (Pwe Hx); congruence).
+  all: try (cbn [set_x set_exit set_closed c_w]; exact Pxnw).
+  all: try (intro Hm; destruct i; [exfalso; specialize (Pabs eq_refl Hm); congruence | apply Iabs; exact Hm]; fail).
+  all: try (intro Hm; apply Forall_upd_nth; [apply Iac; exact Hm | intros x Hx; cbn [set_x set_exit set_closed c_w]; exact Hx]; fail).
+  all: try (destruct i; [exact Iao | apply Forall_upd_nth; [exact Iao | intros x Hx; cbn [set_x set_exit set_closed c_w]; exact Hx]]; fail).
+  all: try (cbn [set_x set_exit set_closed c_x]; discriminate).
+  all: try (intros _; unfold past_exit; cbn [set_x set_exit set_closed c_w c_x past_pc]; apply orb_true_r).
+Qed.
+
 
 Lemma inv_step : forall s h c s' l, Inv s h -> step s c = Some (s', l) -> Inv s' (h ++ [l]).
 Proof.
-  intros s h c s' l I H. destruct c as [e|i w|].
+  intros s h c s' l I H. destruct c as [e|i w|i w|].
   - eapply inv_main; eauto.
   - eapply inv_writer; eauto.
+  - eapply inv_watcher; eauto.
   - eapply inv_cancel; eauto.
 Qed.
 
@@ -292,8 +377,12 @@ Proof.
     + apply IH. exact I.
 Qed.
 
+Lemma live_pc_nonneg p : 0 <= live_pc p <= 1.
+Proof. destruct p; cbn; lia. Qed.
+Lemma started_nonneg c : 0 <= started c.
+Proof. unfold started. pose proof (live_pc_nonneg (c_w c)). pose proof (live_pc_nonneg (c_x c)). lia. Qed.
 Lemma count_started_nonneg : forall l, 0 <= count_started l.
-Proof. induction l as [|c l IH]; cbn; [lia|]. unfold started. destruct (c_w c); lia. Qed.
+Proof. induction l as [|c l IH]; cbn; [lia|]. pose proof (started_nonneg c). lia. Qed.
 
 (* ---------- the theorems, for ALL choice lists ---------- *)
 Theorem callbacks_alternate : forall cs, alternate true (cbs (snd (run init cs))) = true.
@@ -334,7 +423,7 @@ Qed.
 Theorem wg_drains : forall cs,
   let s := fst (run init cs) in
   s_wg s = 0 -> s_m s <> MStart ->
-  s_m s = MReturned /\ Forall (fun c => c_w c = WDone) (s_cs s).
+  s_m s = MReturned /\ Forall (fun c => c_w c = WDone /\ c_x c = WDone) (s_cs s).
 Proof.
   intro cs. pose proof (inv_run cs init [] inv_init) as I. cbn zeta. intros Hz Hs.
   set (s := fst (run init cs)) in *. clearbody s.
@@ -345,11 +434,14 @@ Proof.
   assert (Hret : s_m s = MReturned) by (destruct (s_m s); cbn in Hm; try discriminate; [congruence|reflexivity]).
   split; [exact Hret|].
   pose proof (i_abs_cur _ _ I) as Ha. rewrite Hret in Ha. specialize (Ha eq_refl).
-  assert (Hcz : count_started (s_cs s) = 0) by lia. clear -Hcz Ha.
-  induction (s_cs s) as [|c l IH]; [constructor|]. cbn [count_started] in Hcz. inversion Ha; subst.
-  pose proof (count_started_nonneg l). assert (0 <= started c) by (unfold started; destruct (c_w c); lia).
-  constructor; [|apply IH; [assumption|lia]].
-  unfold started in *. destruct (c_w c); try lia; [congruence|reflexivity].
+  pose proof (i_xabs_cur _ _ I) as Hax. rewrite Hret in Hax. specialize (Hax eq_refl).
+  assert (Hcz : count_started (s_cs s) = 0) by lia. clear -Hcz Ha Hax.
+  induction (s_cs s) as [|c l IH]; [constructor|]. cbn [count_started] in Hcz. inversion Ha; subst. inversion Hax; subst.
+  pose proof (count_started_nonneg l). pose proof (started_nonneg c).
+  constructor; [|apply IH; [assumption|assumption|lia]].
+  assert (Hs0 : started c = 0) by lia. unfold started in Hs0.
+  pose proof (live_pc_nonneg (c_w c)). pose proof (live_pc_nonneg (c_x c)).
+  split; [destruct (c_w c) | destruct (c_x c)]; cbn [live_pc] in *; try lia; try congruence; reflexivity.
 Qed.
 
 (* the defect that was found in the code before /repo c935b5d (wg.Add(1) executed inside the
@@ -365,6 +457,7 @@ Theorem legacy_wg_gap :
   let s := fst (run_legacy init wg_gap_schedule) in
   s_m s = MReturned /\ s_wg s = 0 /\ (exists c, In c (s_cs s) /\ c_w c = WNotStarted) /\
   s_wg (fst (run_legacy init (wg_gap_schedule ++ [CWriter 0 WNone]))) = 1 /\
-  (* the same schedule in the repaired system: the counter still holds the goroutine *)
-  s_wg (fst (run init wg_gap_schedule)) = 1.
+  (* the same schedule in the repaired system: the counter still holds the writer (and the watcher that
+     the current code has as well) *)
+  s_wg (fst (run init wg_gap_schedule)) = 2.
 Proof. vm_compute. repeat split. eexists. split; [left; reflexivity|reflexivity]. Qed.
